@@ -61,6 +61,16 @@ impl Default for LefCfg {
     }
 }
 
+/// Process-wide switch for the rare very long statements (string literals of thousands of characters, polygons of hundreds of vertices,
+/// extensions of hundreds of tokens). On by default; C11 turns it off for the seeds it enumerates every prefix of (quadratic cost).
+static LONG_STATEMENTS: std::sync::atomic::AtomicBool = std::sync::atomic::AtomicBool::new(true);
+pub fn set_long_statements(on: bool) {
+    LONG_STATEMENTS.store(on, std::sync::atomic::Ordering::Relaxed);
+}
+fn long_ok() -> bool {
+    LONG_STATEMENTS.load(std::sync::atomic::Ordering::Relaxed)
+}
+
 pub fn rand_name(rng: &mut Rng, prefix: &str) -> String {
     let n = 1 + rng.usize(8);
     let mut s = String::from(prefix);
@@ -75,7 +85,18 @@ pub fn rand_name(rng: &mut Rng, prefix: &str) -> String {
 pub fn rand_dec(rng: &mut Rng) -> Dec {
     if rng.chance(1, 12) {
         // more fractional digits than any customary print width: 7..18 places, and integers beyond 2^32
-        return match rng.below(3) {
+        return match rng.below(4) {
+            3 => {
+                // 17..28 significant digits, clustered around the machine-integer limits (2^63, 2^64) and spread up to the 96-bit mantissa limit
+                let m: i128 = match rng.below(4) {
+                    0 => i64::MAX as i128 + rng.range(-3, 3) as i128,
+                    1 => u64::MAX as i128 + rng.range(-3, 3) as i128,
+                    2 => (rng.u64() as i128) * (1 + rng.below(1 << 20) as i128),
+                    _ => 9_000_000_000_000_000_000i128 + rng.u64() as i128 % 1_000_000_000_000_000_000,
+                };
+                let m = if rng.bool() { m } else { -m };
+                Dec::from_i128_with_scale(m, rng.below(20) as u32)
+            }
             0 => dec(rng.range(-999_999_999_999, 999_999_999_999), 7 + rng.below(6) as u32),
             1 => dec(rng.range(1, 999), 7 + rng.below(12) as u32),
             _ => dec(rng.range(-99_999_999_999_999, 99_999_999_999_999), rng.below(3) as u32),
@@ -100,7 +121,9 @@ pub fn rand_pt(rng: &mut Rng) -> LefPoint {
 }
 fn rand_strlit(rng: &mut Rng, cfg: &LefCfg) -> String {
     // a LEF string literal INCLUDING its quotes (the data model keeps them); no inner double quote
-    let n = rng.usize(12);
+    // now and then a very long one (beyond any customary line width) with runs of blanks inside
+    let long = rng.chance(1, 60) && long_ok();
+    let n = if long { 1500 + rng.usize(4000) } else { rng.usize(12) };
     let mut s = String::from("\"");
     for _ in 0..n {
         let c = if cfg.hostile_strings && rng.chance(1, 3) {
@@ -109,6 +132,9 @@ fn rand_strlit(rng: &mut Rng, cfg: &LefCfg) -> String {
             *rng.pick(b"abcXYZ019 _-./:") as char
         };
         s.push(c);
+        if long && rng.chance(1, 40) {
+            s.push_str(*rng.pick(&["  ", "   ", " \t ", "    "]));
+        }
     }
     s.push('"');
     s
@@ -130,7 +156,8 @@ fn rand_shape(rng: &mut Rng) -> LefShape {
     match rng.below(3) {
         0 => LefShape::Rect(rand_mask(rng), rand_pt(rng), rand_pt(rng)),
         1 => {
-            let n = 3 + rng.usize(5);
+            // mostly small; now and then hundreds of vertices (a statement of several thousand characters)
+            let n = if rng.chance(1, 80) && long_ok() { 150 + rng.usize(300) } else { 3 + rng.usize(5) };
             LefShape::Polygon(rand_mask(rng), (0..n).map(|_| rand_pt(rng)).collect())
         }
         _ => {
@@ -321,14 +348,14 @@ fn rand_propdef(rng: &mut Rng, cfg: &LefCfg) -> LefPropertyDefinition {
 
 /// Tokens of an extension body, and the data string the reader is specified to keep (token texts, each followed by one space)
 pub fn rand_extension(rng: &mut Rng) -> (LefExtension, Vec<String>) {
-    let n = rng.usize(6);
+    let n = if rng.chance(1, 30) && long_ok() { 300 + rng.usize(500) } else { rng.usize(6) };
     let mut toks = Vec::new();
     for _ in 0..n {
         toks.push(match rng.below(5) {
             0 => ";".to_string(),
             1 => format!("{}", rng.range(-50, 50)),
             2 => rng.pick(&["MACRO", "LAYER", "creator", "Tool", "date", "PIN"]).to_string(),
-            3 => "\"a b\"".to_string(),
+            3 => rng.pick(&["\"a b\"", "\"two  blanks\"", "\" lead\"", "\"tab\there\""]).to_string(),
             _ => rand_name(rng, "x"),
         });
     }
